@@ -11,6 +11,8 @@ import ClarabelModel.Presolve
 import ClarabelModel.ProblemData
 import ClarabelProofs.Lemmas.Presolve
 import ClarabelProofs.Lemmas.PresolveCollapse
+import ClarabelProofs.Lemmas.PresolveSpec
+import ClarabelProofs.Props.C16
 import ClarabelProofs.Lemmas.ScalarInst
 import Mathlib.Algebra.Order.Field.Basic
 
@@ -236,15 +238,123 @@ theorem cap_presolve_off (P : Csc α) (q : Array α) (A : Csc α) (b : Array α)
     d.presolver = none ∧ d.A = A ∧ d.b = ProblemData.capB b infbound ∧
       d.cones = newCollapsed cones ∧ d.m = A.m := by
   unfold ProblemData.new at h
-  simp only [ProblemData.tryPresolver, Bool.not_false, ↓reduceIte, Bool.false_and, Bool.false_eq_true,
-    bind, Except.bind, pure, Except.pure] at h
-  split at h
-  · cases hT : P.toTriu with
-    | error e => rw [hT] at h; cases h
-    | ok P' => rw [hT] at h; cases h; exact ⟨rfl, rfl, rfl, rfl, rfl⟩
-  · cases h; exact ⟨rfl, rfl, rfl, rfl, rfl⟩
+  simp only [ProblemData.tryPresolver, ProblemData.reduceStep, Bool.not_false, ↓reduceIte, Bool.false_and,
+    Bool.false_eq_true, bind, Except.bind, pure, Except.pure] at h
+  cases hT : ProblemData.triuStep P with
+  | error e => rw [hT] at h; cases h
+  | ok P' => rw [hT] at h; cases h; exact ⟨rfl, rfl, rfl, rfl, rfl⟩
 
 end cap
+
+/-- [S] **end-to-end specification of `DefaultProblemData::new`** at model level (chordal
+decomposition off): the output is `cap ∘ drop ∘ collapse` of the user's data.  For a canonical
+`A` (C16) with `A.m = |b| = Σ nvars cones` and a square `P`, `ProblemData.new` never panics and
+returns `d` with
+
+* `d.P` = `P` made upper triangular, `d.q = q`, `d.n = A.n`, identity equilibration data;
+* a keep vector `keep` over the **collapsed** cone list with the exact drop criterion
+  (`dropped_iff`);
+* if presolve is on and some row is dropped: `d.A = A[keep,:]` — `select_rows` succeeds, the
+  result is canonical and (imported `C16.selectRows_spec`) its row `rankBefore keep i` is row
+  `i` of `A`, entry for entry, for every kept `i`; `d.b = min(b[keep], infbound)`;
+  `d.cones` = the reduced list, whose rows add up to `d.m = count keep` and which needs no
+  further consolidation (`Normal`); the presolver record holds `keep`, `mfull = |b|`,
+  `mreduced = d.m` and the bound in force;
+* otherwise (presolve off, or nothing to drop): `d.A = A`, `d.b = min(b, infbound)`,
+  `d.cones` = the collapsed list, no presolver. -/
+theorem problemdata_new_spec [Add α] [Sub α] [Mul α] [Div α] [OfNat α 0] [OfNat α 1] [LT α]
+    [DecidableLT α] [FloatLike α] (P : Csc α) (q : Array α) (A : Csc α) (b : Array α) (cones : List (ConeT α))
+    (presolve : Bool) (inf : α)
+    (hA : C16.Canonical A) (hAm : A.m = b.size) (hnum : numel cones = b.size) (hPsq : P.m = P.n) :
+    ∃ (keep : List Bool) (Pn : Csc α) (d : ProblemData α),
+      keepFlags (threshold inf) (newCollapsed cones) b.toList = .ok keep ∧ keep.length = b.size ∧
+      (∀ i (hi : i < b.size), keep[i]? = some false ↔
+        (inNonneg (newCollapsed cones) i = true ∧ threshold inf < b[i])) ∧
+      ProblemData.triuStep P = .ok Pn ∧
+      ProblemData.new P q A b cones presolve false inf = .ok d ∧
+      d.P = Pn ∧ d.q = q ∧ d.n = A.n ∧ d.equilibration = EquilData.new d.n d.m ∧
+      (if presolve = true ∧ keep.count true < b.size then
+        ∃ A', A.selectRows keep.toArray = .ok A' ∧ C16.Canonical A' ∧ d.A = A' ∧
+          (∀ i j, i < A.m → j < A.n → keep.toArray.getD i false = true →
+            A'.toDense (Csc.rankBefore keep.toArray i) j = A.toDense i j) ∧
+          d.b = ProblemData.capB (Vec.select b keep.toArray) inf ∧
+          d.cones = reduceConesWith keep (newCollapsed cones) ∧
+          d.m = keep.count true ∧ numel d.cones = d.m ∧ Normal d.cones ∧
+          d.presolver = some (recordOf keep b inf)
+      else
+        d.A = A ∧ d.b = ProblemData.capB b inf ∧ d.cones = newCollapsed cones ∧ d.m = A.m ∧
+          d.presolver = none) := by
+  have hnum' : numel (newCollapsed cones) = b.size := by rw [collapse_numel]; exact hnum
+  obtain ⟨keep, hk, hl, hiff, _⟩ := dropped_iff (newCollapsed cones) b inf hnum'
+  obtain ⟨Pn, hPn⟩ := triuStep_ok P hPsq
+  by_cases hcond : presolve = true ∧ keep.count true < b.size
+  · obtain ⟨hp, hc⟩ := hcond
+    have hpre : ProblemData.tryPresolver b (newCollapsed cones) presolve inf =
+        .ok (some (recordOf keep b inf)) := by
+      rw [hp, tryPresolver_on _ _ _ _ hk, if_pos hc]
+    obtain ⟨A', hsel, hpres, hnumel, hm, hn⟩ :=
+      reduced_problem (threshold inf) (newCollapsed cones) A b keep (keep.count true) inf hnum' hk hAm
+        hA.rows_bound
+    obtain ⟨R, hR, hRcan, _, _, hdense⟩ := C16.selectRows_spec A keep.toArray hA (by simp [hl, hAm])
+    rw [hsel] at hR
+    cases hR
+    have hred : ProblemData.reduceStep (some (recordOf keep b inf)) A b (newCollapsed cones) =
+        .ok (A', Vec.select b keep.toArray, reduceConesWith keep (newCollapsed cones)) := hpres
+    refine ⟨keep, Pn, _, hk, hl, hiff, hPn, new_eq_of_steps P q A b cones presolve inf Pn _ _ hPn hpre hred,
+      rfl, rfl, hn, rfl, ?_⟩
+    rw [if_pos ⟨hp, hc⟩]
+    exact ⟨A', hsel, hRcan, rfl, hdense, rfl, rfl, hm, by simp [ProblemData.assemble, hnumel, hm],
+      normal_reduceConesWith _ keep (collapse_normal cones), rfl⟩
+  · have hpre : ProblemData.tryPresolver b (newCollapsed cones) presolve inf = .ok none := by
+      cases presolve with
+      | false => rfl
+      | true =>
+        rw [tryPresolver_on _ _ _ _ hk, if_neg (by intro hc; exact hcond ⟨rfl, hc⟩)]
+    have hred : ProblemData.reduceStep none A b (newCollapsed cones) = .ok (A, b, newCollapsed cones) := rfl
+    refine ⟨keep, Pn, _, hk, hl, hiff, hPn, new_eq_of_steps P q A b cones presolve inf Pn _ _ hPn hpre hred,
+      rfl, rfl, rfl, rfl, ?_⟩
+    rw [if_neg hcond]
+    exact ⟨rfl, rfl, rfl, rfl, rfl⟩
+
+
+/-- [S] **cap**, both paths in one statement: under the hypotheses of `problemdata_new_spec`
+every entry of the internal `b` is `min(·, infbound)` of the corresponding entry of the user's
+`b` restricted to the kept rows (all rows when no presolver was recorded). -/
+theorem cap [Add α] [Sub α] [Mul α] [Div α] [OfNat α 0] [OfNat α 1] [LT α] [DecidableLT α] [FloatLike α]
+    (P : Csc α) (q : Array α) (A : Csc α) (b : Array α) (cones : List (ConeT α))
+    (presolve : Bool) (inf : α) (d : ProblemData α)
+    (hA : C16.Canonical A) (hAm : A.m = b.size) (hnum : numel cones = b.size) (hPsq : P.m = P.n)
+    (h : ProblemData.new P q A b cones presolve false inf = .ok d) :
+    d.b = ProblemData.capB (match d.presolver with
+      | some p => Vec.select b (p.keep.getD #[])
+      | none => b) inf := by
+  obtain ⟨keep, Pn, d0, _, _, _, _, hnew, _, _, _, _, hcase⟩ :=
+    problemdata_new_spec P q A b cones presolve inf hA hAm hnum hPsq
+  rw [hnew] at h
+  cases h
+  split at hcase
+  · obtain ⟨A', _, _, _, _, hb, _, _, _, _, hp⟩ := hcase
+    rw [hb, hp]
+    rfl
+  · obtain ⟨_, hb, _, _, hp⟩ := hcase
+    rw [hb, hp]
+
+/-- [S] **reduced problem, dense meaning** (imports `C16.selectRows_spec`): for a canonical `A`
+and a keep vector of length `A.m`, `select_rows` returns a canonical matrix with `count keep`
+rows whose row `rankBefore keep i` equals row `i` of `A` entry for entry, for every kept `i`,
+and every row of the result is such an image. -/
+theorem reduced_problem_dense [Add α] [OfNat α 0] (A : Csc α) (keep : List Bool)
+    (hA : C16.Canonical A) (hk : keep.length = A.m) :
+    ∃ A', A.selectRows keep.toArray = .ok A' ∧ C16.Canonical A' ∧ A'.m = keep.count true ∧ A'.n = A.n ∧
+      (∀ i j, i < A.m → j < A.n → keep.toArray.getD i false = true →
+        A'.toDense (Csc.rankBefore keep.toArray i) j = A.toDense i j) ∧
+      (∀ r, r < A'.m → ∃ i, i < A.m ∧ keep.toArray.getD i false = true ∧ Csc.rankBefore keep.toArray i = r) := by
+  obtain ⟨R, hR, hcan, hm, hn, hd⟩ := C16.selectRows_spec A keep.toArray hA (by simpa using hk)
+  have hm' : R.m = keep.count true := by rw [hm]; simpa using (count_true_eq_filter_id keep).symm
+  refine ⟨R, hR, hcan, hm', hn, hd, ?_⟩
+  intro r hr
+  obtain ⟨i, hi, hki, hri⟩ := C16.selectRows_rows_onto keep.toArray r (by rw [← hm]; exact hr)
+  exact ⟨i, by simpa [hk] using hi, hki, hri⟩
 
 /-! ### the module-level bound -/
 
@@ -276,5 +386,16 @@ example : newCollapsed ([ConeT.soc 1, ConeT.nonneg 3, ConeT.nonneg 2, ConeT.exp,
 example : (InfWorld.run (20 : Nat) [.set 5, .new, .set 7, .default, .new]).captured = [5, 20] := by rfl
 /-- `dropped_of_ge_bound` over ℝ with the default bound -/
 example : threshold (1e20 : ℝ) < 1e20 := dropped_of_ge_bound _ _ (by norm_num) (le_refl _)
+
+/-- `problemdata_new_spec` / `cap` / `reduced_problem_dense`: the hypotheses hold for a
+concrete 2×1 problem over ℝ (canonical `A`, one nonnegative cone of dimension 2, empty `P`) -/
+example : ∃ (keep : List Bool) (Pn : Csc ℝ) (d : ProblemData ℝ),
+    ProblemData.new (⟨1, 1, #[0, 0], #[], #[]⟩ : Csc ℝ) #[1] ⟨2, 1, #[0, 2], #[0, 1], #[1, 2]⟩ #[1, 1e30]
+      [ConeT.nonneg 2] true false 1e20 = .ok d ∧ d.P = Pn ∧ keep.length = 2 := by
+  have hA : C16.Canonical (⟨2, 1, #[0, 2], #[0, 1], #[1, 2]⟩ : Csc ℝ) := (C16.check_format_iff _).mp (by rfl)
+  obtain ⟨keep, Pn, d, _, hl, _, _, hnew, hP, _⟩ :=
+    problemdata_new_spec (⟨1, 1, #[0, 0], #[], #[]⟩ : Csc ℝ) #[1] ⟨2, 1, #[0, 2], #[0, 1], #[1, 2]⟩
+      #[1, 1e30] [ConeT.nonneg 2] true 1e20 hA rfl rfl rfl
+  exact ⟨keep, Pn, d, hnew, hP, hl⟩
 
 end Clarabel.C09
